@@ -96,8 +96,13 @@ func init() {
 						return
 					}
 					// (iii) accumulate-in-loop
-					if ok, why := accumulatingLoop(fn, call); ok {
+					ok, why := accumulatingLoop(fn, call)
+					if ok {
 						r.okWhy(key, p.Rel(c.Pos()), what, why)
+						return
+					}
+					if why != "" {
+						r.bad(key, p.Rel(c.Pos()), what, funcName(fn)+": "+why)
 						return
 					}
 					r.bad(key, p.Rel(c.Pos()), what, fmt.Sprintf("%s calls Read once and continues as if the buffer were full: a transport that delivers fewer bytes (or the last bytes together with io.EOF) changes what is decoded", funcName(fn)))
@@ -194,5 +199,67 @@ func accumulatingLoop(fn *ssa.Function, call *ssa.Call) (bool, string) {
 			return false, ""
 		}
 	}
+	// no exit from the loop may depend on a plain iteration counter: the number of Read
+	// calls needed is the transport's choice, not the decoder's
+	header := loopHeaderOf(call.Block())
+	if header != nil {
+		exits := loopExitEdges(header)
+		readVals := forward(readResults(call), fwdOpts{})
+		for e := range exits {
+			if len(e.from.Instrs) == 0 {
+				continue
+			}
+			ifi, ok := e.from.Instrs[len(e.from.Instrs)-1].(*ssa.If)
+			if !ok {
+				continue
+			}
+			if readVals[ifi.Cond] {
+				continue
+			}
+			bw := backward(ifi.Cond, nil)
+			derivedFromRead := false
+			for v := range bw {
+				if readVals[v] || v == ssa.Value(acc) {
+					derivedFromRead = true
+				}
+			}
+			if derivedFromRead {
+				continue
+			}
+			for v := range bw {
+				ph, isPhi := v.(*ssa.Phi)
+				if !isPhi || ph.Block() != header {
+					continue
+				}
+				for k, pred := range header.Preds {
+					if !header.Dominates(pred) || k >= len(ph.Edges) {
+						continue
+					}
+					if inc, isInc := ph.Edges[k].(*ssa.BinOp); isInc && inc.Op == token.ADD && (inc.X == ssa.Value(ph) || inc.Y == ssa.Value(ph)) {
+						// unconditional increment: executed on every trip round the loop
+						everyTrip := true
+						for _, bp := range header.Preds {
+							if header.Dominates(bp) && !(inc.Block() == bp || inc.Block().Dominates(bp)) {
+								everyTrip = false
+							}
+						}
+						if everyTrip {
+							return false, "a loop exit depends on the number of Read calls made (iteration counter), not on what was read"
+						}
+					}
+				}
+			}
+		}
+	}
 	return true, "read loop: the byte count is accumulated and the loop continues until the expected size is reached; no successful exit skips the accumulation"
+}
+
+func readResults(call *ssa.Call) []ssa.Value {
+	var out []ssa.Value
+	for _, ref := range *call.Referrers() {
+		if ex, ok := ref.(*ssa.Extract); ok {
+			out = append(out, ex)
+		}
+	}
+	return out
 }
